@@ -152,6 +152,7 @@ func runC12(c *Ctx) {
 	c12InPlace(c)
 	c12Ownership(c)
 	c12Touching(c)
+	c12Aligned(c)
 }
 
 // c12Ownership (R12f): the package never writes into byte slices it did not allocate
@@ -628,4 +629,102 @@ func c12InPlace(c *Ctx) {
 		}
 	}
 	c.Check(okSkip, "R12e", "(*lib/binpatch.PatchSet).applyRewrite skips OldSize", p.Pos(rw.Pos()), "", "the rewrite path does not skip exactly OldSize bytes of the input for each patch")
+}
+
+// ------------------------------------------------------------------------------ R12h / R12i
+
+// c12Aligned: headers and blobs of a PatchSet are parallel slices; whatever permutes one must
+// permute the other in the same object. The sorter swaps both fields of the PatchSet it wraps,
+// so it must wrap the receiver itself or a copy whose two slices were both copied.
+func c12Aligned(c *Ctx) {
+	p := c.P
+	c.Rule("R12h", "headers and blobs are permuted together: the sorter wraps the set itself or a copy of both slices", 1)
+	c.Rule("R12i", "the hard-link probe asserts FileInfo.Sys() to the type the os package returns", 1)
+	n := 0
+	for _, fn := range p.pkgFuncs("lib/binpatch") {
+		for _, ci := range p.callsIn(fn, "sort.Sort", "sort.Stable") {
+			n++
+			key := fmt.Sprintf("%s sorts the set#%d", p.FName(fn), n)
+			c.Analysed(p.FName(fn))
+			// the PatchSet pointer stored in the sorter literal
+			var ps ssa.Value
+			arg := stripConv(ci.Common().Args[0])
+			if l, ok := arg.(*ssa.UnOp); ok && l.Op == token.MUL {
+				if a, ok := l.X.(*ssa.Alloc); ok {
+					for _, r := range *a.Referrers() {
+						if fa, ok := r.(*ssa.FieldAddr); ok {
+							for _, rr := range *fa.Referrers() {
+								if st, ok := rr.(*ssa.Store); ok && st.Addr == ssa.Value(fa) {
+									ps = st.Val
+								}
+							}
+						}
+					}
+				}
+			}
+			if ps == nil {
+				c.Undecided("R12h", key, p.Pos(ci.Pos()), "the PatchSet wrapped by the sorter was not identified")
+				continue
+			}
+			ok := false
+			why := ""
+			switch x := ps.(type) {
+			case *ssa.Parameter:
+				ok = true // the set itself: both fields swapped in place
+			case *ssa.Alloc:
+				// a local copy: both Patches and Blobs must be re-assigned with fresh slices
+				fresh := map[string]bool{}
+				for _, r := range *x.Referrers() {
+					fa, isFA := r.(*ssa.FieldAddr)
+					if !isFA {
+						continue
+					}
+					_, fld, _ := p.fieldAddr(fa)
+					for _, rr := range *fa.Referrers() {
+						if st, isSt := rr.(*ssa.Store); isSt && st.Addr == ssa.Value(fa) {
+							if call, isCall := st.Val.(*ssa.Call); isCall {
+								if bi, isB := call.Call.Value.(*ssa.Builtin); isB && bi.Name() == "append" {
+									fresh[fld] = true
+								}
+							}
+							if _, isMk := st.Val.(*ssa.MakeSlice); isMk {
+								fresh[fld] = true
+							}
+						}
+					}
+				}
+				ok = fresh["Patches"] && fresh["Blobs"]
+				why = fmt.Sprintf("copy with fresh slices for %v only", sortedKeys(fresh))
+			default:
+				why = "neither the receiver nor a local copy"
+			}
+			c.Check(ok, "R12h", key, p.Pos(ci.Pos()), "sorter wraps the set itself (or a copy of both slices)", "the sorter swaps headers and blobs of the PatchSet it wraps, but that object shares one of the two slices with the caller's set ("+why+"): the caller's headers and blobs no longer line up after the sort, so a later Dump or Apply of the same set pairs patches with the wrong contents")
+		}
+	}
+	if n < 1 {
+		c.Undecided("R12h", "sort sites", "-", "no sort of a PatchSet found (1 confirmed by reading: Dump)")
+	}
+	// FileInfo.Sys()
+	m := 0
+	for _, fn := range p.Funcs {
+		for _, b := range fn.Blocks {
+			for _, in := range b.Instrs {
+				ta, ok := in.(*ssa.TypeAssert)
+				if !ok {
+					continue
+				}
+				call, _ := resultOf(ta.X)
+				if call == nil || !call.Common().IsInvoke() || call.Common().Method.Name() != "Sys" || !strings.HasSuffix(call.Common().Value.Type().String(), "fs.FileInfo") {
+					continue
+				}
+				m++
+				key := fmt.Sprintf("%s asserts FileInfo.Sys()#%d", p.FName(fn), m)
+				c.Analysed(p.FName(fn))
+				c.Check(ta.AssertedType.String() == "*syscall.Stat_t", "R12i", key, p.Pos(ta.Pos()), "*syscall.Stat_t", "FileInfo.Sys() is asserted to "+ta.AssertedType.String()+", which the os package never returns (it returns *syscall.Stat_t on unix): the assertion always fails, hasLinks reports no extra links, and a hard-linked file is patched in place under all of its names")
+			}
+		}
+	}
+	if m < 1 {
+		c.Undecided("R12i", "FileInfo.Sys() assertions", "-", "none found (1 confirmed by reading: binpatch.hasLinks)")
+	}
 }
